@@ -58,7 +58,7 @@ type srvSc struct {
 	BigProv  bool     `json:"big_prov"`    // providers carry ~8 KiB of addresses each (4 MiB budget reachable when NProv is large)
 	Filter   string   `json:"addr_filter"` // "" | nolo
 	Reqs     []srvReq `json:"reqs"`
-	tainted bool // set while running: a byte-flipped frame of unknown effect was sent; state-dependent provider clauses are off
+	tainted  bool     // set while running: a byte-flipped frame of unknown effect was sent; state-dependent provider clauses are off
 }
 
 var (
